@@ -1,13 +1,13 @@
 SPECIFICATION Spec
 CONSTANTS
-  Ids = {"x"}
-  MaxLen = 3
+  Ids = {"x", "y", "z"}
+  MaxLen = 8
   MaxDepth = 2
-  MixKinds = FALSE
-  AsmForms = FALSE
+  MixKinds = TRUE
+  AsmForms = TRUE
   DevsOn = {"ExternInheritsNoLinkage", "ThreadNoTentative", "ThreadMismatchNotDiagnosed", "InlineLateExternal", "NoUsedInternalUndefDiag"}
-  OkPrefix = FALSE
-  SampleMod = 8
-  Emit = "all"
+  OkPrefix = TRUE
+  SampleMod = 1
+  Emit = "full"
 INVARIANTS Inv_Refines Inv_OneDef Inv_ExportedExt Inv_FiredExplains Inv_Emit
 CHECK_DEADLOCK FALSE
